@@ -107,7 +107,7 @@ def run(ctx):
             return
         one_stage(ctx, "c11" + suffix, 432 + n * mult, {"VERIF_C11_EXH": "1"}, 800, off)
         if not suffix:
-            # every assignment of the 11 outcomes of the quantifier to <= 2 services x <= 2 rounds, and of 7
+            # every assignment of the 11 outcomes of the quantifier to <= 2 services x <= 2 rounds, and of 6
             # class representatives to <= 3 services x <= 2 rounds; want 1..3, disk and proxy
             one_stage(ctx, "c11exh2", 0, {"VERIF_C11_EXH": "2", "VERIF_C11_EXH_ONLY": "1"}, 1500, off)
             one_stage(ctx, "c11exh3", 0, {"VERIF_C11_EXH": "3", "VERIF_C11_EXH_ONLY": "1"}, 3000, off, timeout=2400)
